@@ -25,7 +25,8 @@ fn norm_m2s(data: &[u8]) -> Vec<String> {
 #[derive(Clone, Debug)]
 enum Step {
     Oligo { input: usize, cfg: OligoCfg },
-    Counter { input: usize, cfg: CtrCfg },
+    /// keep = merge(false): the chunk files stay next to the merged table
+    Counter { input: usize, cfg: CtrCfg, keep: bool },
     Cov { input: usize, cfg: CovCfg },
     Min { input: usize, mode: MinMode, w: usize, m: usize, threads: usize },
     /// plant stale temp files as if an earlier counter run had crashed before its merge
@@ -39,7 +40,7 @@ impl Step {
     fn json(&self) -> Json {
         match self {
             Step::Oligo { input, cfg } => Json::obj().set("run", Json::s("oligo")).set("input", Json::u(*input)).set("cfg", cfg.json()),
-            Step::Counter { input, cfg } => Json::obj().set("run", Json::s("counter")).set("input", Json::u(*input)).set("cfg", cfg.json()),
+            Step::Counter { input, cfg, keep } => Json::obj().set("run", Json::s(if *keep { "counter, merge(false): chunk files kept" } else { "counter" })).set("input", Json::u(*input)).set("cfg", cfg.json()),
             Step::Cov { input, cfg } => Json::obj().set("run", Json::s("coverage")).set("input", Json::u(*input)).set("cfg", cfg.json()),
             Step::Min { input, mode, w, m, threads } => Json::obj().set("run", Json::s(format!("min {:?}", mode))).set("input", Json::u(*input)).set("w", Json::u(*w)).set("m", Json::u(*m)).set("threads", Json::u(*threads)),
             Step::PlantStale { parts, chunks } => Json::obj().set("run", Json::s("plant stale temp_kmers files")).set("parts", Json::Int(*parts as i128)).set("chunks", Json::Int(*chunks as i128)),
@@ -60,8 +61,10 @@ fn execute(step: &Step, inputs: &[String], loc_file: &str, loc_dir: &str) -> Res
                 Ok(Ok(())) => Ok(vec![("vectors".into(), run.output.unwrap_or_default())]),
             }
         }
-        Step::Counter { input, cfg } => {
+        Step::Counter { input, cfg, keep } => {
+            super::c07::MERGE_KEEPS_CHUNKS.with(|c| c.set(*keep));
             let run = run_counter(&inputs[*input], loc_dir, cfg, None);
+            super::c07::MERGE_KEEPS_CHUNKS.with(|c| c.set(false));
             run.result.map_err(|p| format!("panic: {}", p))?;
             let d = run.counts_raw.unwrap_or_default();
             Ok(vec![("kmers.counts(sorted)".into(), sorted_lines(&d).join(&b"\n"[..]))])
@@ -188,7 +191,15 @@ fn gen_history(rng: &mut Rng, totals: &[u64]) -> Vec<Step> {
             for _ in 0..len {
                 let input = rng.usize(0, totals.len() - 1);
                 let kk = if rng.chance(1, 2) { k } else { rng.usize(2, 31) };
-                steps.push(Step::Counter { input, cfg: gen_ctr_cfg(rng, totals[input].max(1), kk) });
+                let mut cfg = gen_ctr_cfg(rng, totals[input].max(1), kk);
+                // one run in three keeps its chunk files (merge(false)); half of those are the smallest possible
+                // layout: one worker, one chunk
+                let keep = rng.chance(1, 3);
+                if keep && rng.chance(1, 2) {
+                    cfg.threads = 1;
+                    cfg.mem_gb = 6.0;
+                }
+                steps.push(Step::Counter { input, cfg, keep });
             }
         }
         2 => {
@@ -200,7 +211,7 @@ fn gen_history(rng: &mut Rng, totals: &[u64]) -> Vec<Step> {
                 let input = rng.usize(0, totals.len() - 1);
                 if j + 1 < len && rng.chance(1, 2) {
                     let kk = rng.usize(2, 20);
-                    steps.push(Step::Counter { input, cfg: gen_ctr_cfg(rng, totals[input].max(1), kk) });
+                    steps.push(Step::Counter { input, cfg: gen_ctr_cfg(rng, totals[input].max(1), kk), keep: rng.chance(1, 4) });
                 } else {
                     steps.push(Step::Cov {
                         input,
